@@ -117,6 +117,10 @@ class _Builder:
 
     def attach(self, kind):
         """Attach a group to a random open valence (or start the molecule)."""
+        if (kind in ("phenyl", "cyclohexyl") and self.rings >= 2) or kind not in GROUPS + ["C.3"]:
+            kind = "C.3"        # decided before a valence is consumed, so no atom is left under-bonded
+        if kind in ("F", "Cl", "Br", "I") and not self.free:
+            kind = "C.3"
         parent = self.take() if self.free else None
 
         def link(i):
@@ -129,8 +133,6 @@ class _Builder:
             val = {"C.3": 4, "N.3": 3, "N.4": 4, "O.3": 2, "S.3": 2}[kind]
             self.open(i, val - (1 if parent is not None else 0))
         elif kind in ("F", "Cl", "Br", "I"):
-            if parent is None:
-                return self.attach("C.3")
             i = self.add(kind, parent)
             link(i)
         elif kind == "carboxylate":
@@ -164,7 +166,7 @@ class _Builder:
             self.open(n, 2)
             if parent is None:
                 self.open(c, 1)
-        elif kind == "phenyl" and self.rings < 2:
+        elif kind == "phenyl":
             self.rings += 1
             ring = [self.add("C.ar", parent) for _ in range(6)]
             for k in range(6):
@@ -173,7 +175,7 @@ class _Builder:
             for k in range(6):
                 if not (k == 0 and parent is not None):
                     self.open(ring[k], 1)
-        elif kind == "cyclohexyl" and self.rings < 2:
+        elif kind == "cyclohexyl":
             self.rings += 1
             ring = [self.add("C.3", parent) for _ in range(6)]
             for k in range(6):
@@ -199,7 +201,7 @@ class _Builder:
                 self.bond(p, ob, "1")
                 self.open(ob, 1)
         else:
-            return self.attach("C.3")
+            raise ValueError(kind)
         return None
 
     def finish(self):
